@@ -147,8 +147,10 @@ class PackFile:
 
 def unify_path(path: str) -> str:
     """Convert paths to a unique form."""
-    path = os.path.normpath(path).casefold().replace('\\', '/')
-    if '../' in path:
+    # Unify the slashes first: on POSIX normpath() does not treat "\\" as a separator.
+    path = os.path.normpath(path.replace('\\', '/')).casefold().replace('\\', '/')
+    # After normalising, ".." components can only remain at the very start.
+    if path == '..' or path.startswith('../'):
         raise ValueError('Path tried to escape root!')
     return path.lstrip('/')
 
